@@ -36,9 +36,10 @@ CASE_TIMEOUT_S = 900
 STUBS = []
 PROBES = ['gen_on_existing_rejected', 'gen_force', 'gen_force_other_reference', 'upd_new', 'upd_existing_rejected',
           'upd_force_existing', 'upd_force_new', 'load_unregistered_rejected', 'skew_rejected', 'graph_params_alias',
-          'auto_exception_alias', 'symlink', 'natural_failure', 'three_or_more_pools', 'invalid_protein_as_noncoding']
+          'auto_exception_alias', 'symlink', 'natural_failure', 'three_or_more_pools', 'invalid_protein_as_noncoding',
+          'skew_rejected_plain_load', 'gen_force_on_old_layout']
 RULE = ('case = two generated references R_A/R_B; history = Hypothesis rule sequence (<=12 operations) over '
-        'gen(R,P,force,symlink,flag) / upd(P,force) / load(P) / skew(field) / unskew with P from an alphabet of 9 '
+        'gen(R,P,force,symlink,flag) / upd(P,force) / load(P) / load_plain (parser path) / skew(field incl. pre-1.3.0 metadata layout) / unskew with P from an alphabet of 9 '
         'cleavage-parameter sets (two pairs alias each other: graph parameters only, and exception auto vs '
         'explicit); after every operation all registered pools and all reference data are reloaded and compared '
         'with the model.  distinct = distinct (model state, operation, outcome class) transitions')
@@ -282,7 +283,8 @@ class Sim:
         r = self.inv_generate(refdir, pname, force, symlink, flag)
         if nonempty and not force:
             self.probe('gen_on_existing_rejected')
-            if r != ('exit', 1):
+            if r != ('exit', 1) and not (self.skewed == 'old_layout' and r[0] != 'ok'):
+                # (pre-1.3.0 metadata: the pinned tree refuses with KeyError from IndexDir() -- still a refusal)
                 self.clean = False
                 raise Violation('gen-reject', f'gen-reject:{r[0]}', {'result': r})
             outcome = 'rejected'
@@ -291,6 +293,16 @@ class Sim:
             if r[0] == 'ok':
                 self._gen_ok(ref, pname, flag)
             outcome = 'unclean:' + r[0]
+        elif nonempty and force and self.skewed == 'old_layout':
+            # a directory whose metadata.json has the pre-1.3.0 layout: C12 only demands that it is never *used*;
+            # whether --force can rebuild it is not stated (on the pinned tree IndexDir() raises KeyError)
+            self.probe('gen_force_on_old_layout')
+            if r[0] == 'ok':
+                self._gen_ok(ref, pname, flag)
+                outcome = 'ok'
+            else:
+                self.clean = False
+                outcome = 'old-layout-not-rebuildable'
         elif nonempty and force and symlink and has_gtf:
             self.probe('natural_failure')
             if r[0] == 'ok':
@@ -332,7 +344,7 @@ class Sim:
         c = canon(pname)
         if self.skewed:
             self.probe('skew_rejected')
-            if r[0] != 'exc' or r[1] != 'InvalidIndexError':
+            if r[0] == 'ok' or (self.skewed != 'old_layout' and r[:2] != ('exc', 'InvalidIndexError')):
                 raise Violation('skew-accepted', f'skew-accepted:upd:{self.skewed}', {'result': r})
             if (self.ctx.index / 'metadata.json').read_text() != meta_before:
                 raise Violation('skew-accepted', f'skew-modified:upd:{self.skewed}', {})
@@ -366,7 +378,7 @@ class Sim:
         c = canon(pname)
         if self.skewed:
             self.probe('skew_rejected')
-            if r[0] != 'exc' or r[1] != 'InvalidIndexError':
+            if r[0] == 'ok' or (self.skewed != 'old_layout' and r[:2] != ('exc', 'InvalidIndexError')):
                 raise Violation('skew-accepted', f'skew-accepted:load:{self.skewed}', {'result': str(r)[:200]})
             outcome = 'skew-rejected'
         elif c not in self.pools:
@@ -393,13 +405,43 @@ class Sim:
             outcome = 'ok'
         self.trans.append((before, 'load', outcome))
 
+    def op_load_plain(self):
+        """What the parsers do: load_references(load_canonical_peptides=False) on the index directory."""
+        if not (self.exists and self.clean):
+            return
+        before = self.state_sig()
+        args = argparse.Namespace(index_dir=self.ctx.index, reference_source=None, genome_fasta=None,
+                                  annotation_gtf=None, proteome_fasta=None)
+        r = quiet_call(common_mod.load_references, args, load_genome=True, load_canonical_peptides=False)
+        if self.skewed:
+            self.probe('skew_rejected')
+            self.probe('skew_rejected_plain_load')
+            if r[0] == 'ok' or (self.skewed != 'old_layout' and r[:2] != ('exc', 'InvalidIndexError')):
+                raise Violation('skew-accepted', f'skew-accepted:load-plain:{self.skewed}', {'result': str(r)[:200]})
+            outcome = 'skew-rejected'
+        else:
+            if r[0] != 'ok':
+                raise Violation('refdata-load', f'refdata-load:plain:raised:{r[1]}', {'result': r})
+            genome, anno, _, pool = r[1]
+            exp = self.ctx.refdata(self.cur_ref, False)
+            if pool is not None or {k: str(v.seq) for k, v in genome.items()} != exp['genome'] \
+                    or list(anno.transcripts.keys()) != list(exp['tx'].keys()):
+                raise Violation('refdata', 'refdata:plain-load', {})
+            outcome = 'ok'
+        self.trans.append((before, 'load_plain', outcome))
+
     def op_skew(self, field):
         if not (self.exists and self.clean) or self.skewed:
             return
         f = self.ctx.index / 'metadata.json'
         self.saved_meta = f.read_text()
         meta = json.loads(self.saved_meta)
-        meta['version'][field] = {'python': '3.7.0', 'biopython': '1.70', 'mopepgen': '0.9.0'}[field]
+        if field == 'old_layout':
+            # what releases older than the minimal supported version wrote: one parameter set, no pool list
+            meta = {'version': dict(meta['version'], mopepgen='1.2.1'),
+                    'cleavage_params': meta['canonical_pools'][0]['cleavage_params'], 'source': meta['source']}
+        else:
+            meta['version'][field] = {'python': '3.7.0', 'biopython': '1.70', 'mopepgen': '0.9.0'}[field]
         f.write_text(json.dumps(meta, indent=2))
         self.skewed = field
         self.trans.append((self.state_sig(), 'skew', field))
@@ -461,9 +503,13 @@ def make_machine(ctx_factory, trace_box, stats_box):
         def load(self, p):
             self.do(('load', p))
 
-        @rule(field=st.sampled_from(['python', 'biopython', 'mopepgen']))
+        @rule(field=st.sampled_from(['python', 'biopython', 'mopepgen', 'old_layout']))
         def skew(self, field):
             self.do(('skew', field))
+
+        @rule()
+        def load_plain(self):
+            self.do(('load_plain',))
 
         @rule()
         def unskew(self):
